@@ -1,9 +1,137 @@
 import GqlVerif.Driver.Loop
-open GqlVerif
+import GqlVerif.Model.EnvelopeSpec
+/-!
+Model driver of C15.  Requests (`<Json>` is `GqlVerif.Json.toSexp` syntax, `<Dump>` is the value dump below):
+
+  (de-response <Json>)        → (ok <Dump of Response>) | (err)
+  (de-error <Json>)           → (ok <Dump of Error>) | (err)
+  (ser-response <Dump>)       → (ok <Json>)
+  (ser-error <Dump>)          → (ok <Json>)
+  (wf-response <Dump>)        → (true) | (false)          -- hypothesis of the round-trip theorems
+  (display-error <Dump>)      → (ok "text")
+  (querybody <Json> "q" "op") → (ok <Json>)
+  (spec-body <Json>)          → (true) | (false)          -- the grammar `Spec.specBody`
+
+Value dump (a JSON encoding that is *not* the serde one, so that `None` and absent cannot be confused):
+`Option` = `[]` / `[x]`; `Location` = `{"line","column"}`; `PathFragment` = `{"key": s}` / `{"index": n}`;
+maps = the object itself; `Error` / `Response` = objects with all members.
+-/
+open GqlVerif GqlVerif.Envelope
+
+namespace C15Driver
+
+def dumpOpt (f : α → Json) : Option α → Json
+  | none => .arr []
+  | some a => .arr [f a]
+
+def dumpLocation (l : Location) : Json := .obj [("line", .int l.line), ("column", .int l.column)]
+
+def dumpFragment : PathFragment → Json
+  | .key s => .obj [("key", .str s)]
+  | .index n => .obj [("index", .int n)]
+
+def dumpError (e : Error) : Json :=
+  .obj [("message", .str e.message),
+        ("locations", dumpOpt (fun ls => .arr (ls.map dumpLocation)) e.locations),
+        ("path", dumpOpt (fun fs => .arr (fs.map dumpFragment)) e.path),
+        ("extensions", dumpOpt .obj e.extensions)]
+
+def dumpResponse (r : Response JMap) : Json :=
+  .obj [("data", dumpOpt .obj r.data),
+        ("errors", dumpOpt (fun es => .arr (es.map dumpError)) r.errors),
+        ("extensions", dumpOpt .obj r.extensions)]
+
+def undumpOpt (f : Json → Option α) : Json → Option (Option α)
+  | .arr [] => some none
+  | .arr [x] => (f x).map some
+  | _ => none
+
+def get (k : String) : Json → Option Json
+  | .obj kvs => Json.lookup k kvs
+  | _ => none
+
+def undumpInt : Json → Option Int
+  | .int n => some n
+  | _ => none
+
+def undumpStr : Json → Option String
+  | .str s => some s
+  | _ => none
+
+def undumpList (f : Json → Option α) : Json → Option (List α)
+  | .arr xs => xs.mapM f
+  | _ => none
+
+def undumpMap : Json → Option JMap
+  | .obj m => some m
+  | _ => none
+
+def undumpLocation (j : Json) : Option Location := do
+  pure { line := ← (get "line" j) >>= undumpInt, column := ← (get "column" j) >>= undumpInt }
+
+def undumpFragment (j : Json) : Option PathFragment :=
+  match get "key" j, get "index" j with
+  | some (.str s), none => some (.key s)
+  | none, some (.int n) => some (.index n)
+  | _, _ => none
+
+def undumpError (j : Json) : Option Error := do
+  pure { message := ← (get "message" j) >>= undumpStr,
+         locations := ← (get "locations" j) >>= undumpOpt (undumpList undumpLocation),
+         path := ← (get "path" j) >>= undumpOpt (undumpList undumpFragment),
+         extensions := ← (get "extensions" j) >>= undumpOpt undumpMap }
+
+def undumpResponse (j : Json) : Option (Response JMap) := do
+  pure { data := ← (get "data" j) >>= undumpOpt undumpMap,
+         errors := ← (get "errors" j) >>= undumpOpt (undumpList undumpError),
+         extensions := ← (get "extensions" j) >>= undumpOpt undumpMap }
+
+def ok (j : Json) : Sexp := .list [.atom "ok", j.toSexp]
+def err : Sexp := .list [.atom "err"]
+def bool (b : Bool) : Sexp := .list [Sexp.mkBool b]
+def bad (msg : String) : Sexp := .list [.atom "bad-request", .str msg]
 
 def handle (req : Sexp) : Sexp :=
   match req with
+  | .list [.atom "de-response", j] =>
+    match Json.ofSexp j with
+    | none => bad "json"
+    | some j => match deResponseObj j with
+      | some r => ok (dumpResponse r)
+      | none => err
+  | .list [.atom "de-error", j] =>
+    match Json.ofSexp j with
+    | none => bad "json"
+    | some j => match deError j with
+      | some e => ok (dumpError e)
+      | none => err
+  | .list [.atom "ser-response", d] =>
+    match (Json.ofSexp d) >>= undumpResponse with
+    | none => bad "dump"
+    | some r => ok (serResponseObj r)
+  | .list [.atom "ser-error", d] =>
+    match (Json.ofSexp d) >>= undumpError with
+    | none => bad "dump"
+    | some e => ok (serError e)
+  | .list [.atom "wf-response", d] =>
+    match (Json.ofSexp d) >>= undumpResponse with
+    | none => bad "dump"
+    | some r => bool (r.wf distinctKeys)
+  | .list [.atom "display-error", d] =>
+    match (Json.ofSexp d) >>= undumpError with
+    | none => bad "dump"
+    | some e => .list [.atom "ok", .str e.display]
+  | .list [.atom "querybody", v, .str q, .str op] =>
+    match Json.ofSexp v with
+    | none => bad "json"
+    | some v => ok (serQueryBody { variables := v, query := q, operationName := op })
+  | .list [.atom "spec-body", j] =>
+    match Json.ofSexp j with
+    | none => bad "json"
+    | some j => bool (Spec.specBody j)
   | .list (.atom "echo" :: xs) => .list (.atom "echo" :: xs)
-  | _ => .list [.atom "bad-request", .str "unknown request"]
+  | _ => bad "unknown request"
 
-def main : IO Unit := runLoop handle
+end C15Driver
+
+def main : IO Unit := runLoop C15Driver.handle
